@@ -59,6 +59,8 @@ def onecs(ctx):
             if not listed:
                 # a value operation added later (exchange, compare_exchange, update-from-value ...): a public member that
                 # reads or writes m_obj itself, hands out no handle and runs no user functor is a register operation too
+                if cls.endswith("deferred_guarded"):
+                    continue        # writes of deferred_guarded are deferred by design; only load() is a register operation
                 if f.access != "public" or f.name in common.ACQ_METHODS or handle_class(f.ret) or \
                         f.name in ("read", "modify", "modify_detach", "modify_async", "do_pending_writes", "do_pending_writes_internal") or \
                         any(st["k"] in CALLS and common.is_user_call(f, st) for st in f.stmts.values()) or \
@@ -89,6 +91,31 @@ def onecs(ctx):
                         ctx.ob(rid, not byref, f.loc(st), "%s: the value returned is materialised inside the forwarded operation" % f.name,
                                "" if not byref else "the forwarded call yields a reference into the protected object; the copy that "
                                "%s returns is made from it after the lock was released" % f.name, fn=f.label, inst=f.qname)
+                continue
+            if not listed and len(acq) > 1:
+                # a later operation with a read-only fast path (compare under the shared lock, write under the exclusive
+                # one): what it writes must not rest on what it read in an EARLIER section - the section that writes
+                # reads the value again first
+                for st in field_refs(f, cls):
+                    if st["m"]["name"] != "m_obj":
+                        continue
+                    acc_, _u = eng.classify_access(f, st)
+                    if acc_ not in ("write", "call", "bind", "addr"):
+                        continue
+                    wp = f.pos_of(st)
+                    if wp is None:
+                        continue
+                    okw = la.holds(wp, "this.m_mutex", "X")
+                    reread = False
+                    for st2 in field_refs(f, cls):
+                        if st2["m"]["name"] == "m_obj" and st2["id"] != st["id"] and eng.classify_access(f, st2)[0] in ("read", "bind-const", "addr-const", "call-const"):
+                            rp = f.pos_of(st2)
+                            if rp is not None and f.dominates(tuple(rp), tuple(wp)) and la.holds(rp, "this.m_mutex", "X"):
+                                reread = True
+                    ctx.ob(rid, okw and reread, f.loc(st), "%s decides and writes in the same exclusive section" % f.name,
+                           "" if okw and reread else "the value is written in an exclusive section that does not read it again: the "
+                           "decision was taken in an earlier critical section, and another writer may have changed the value in between",
+                           fn=f.label, inst=f.qname)
                 continue
             ok = len(acq) == 1 and acq[0][3] is True
             ctx.ob(rid, ok, site, "%s acquires m_mutex exactly once, blocking" % f.name,
